@@ -63,9 +63,21 @@ class HidLink:
         self.log.ev("link", *ev)
 
     # -- hid module API
+    def hidapi_exit(self):
+        """hid.hidapi_exit(): the library forgets what it knew about the bus."""
+        self.tlog("hidapi_exit")
+        self._bus_view = None
+
     def enumerate(self, vid=0, pid=0):
         self._seam()
         present = self.device.present()
+        if getattr(self, "stale_enum", False):
+            # the environment the repository documents in HSM2Dongle.disconnect (docker): the library
+            # looks at the bus once after its initialisation and does not notice a re-plug until
+            # hidapi_exit() resets it
+            if getattr(self, "_bus_view", None) is None:
+                self._bus_view = present
+            present = self._bus_view
         self.tlog("enumerate", int(present))
         if not present:
             return []
